@@ -239,7 +239,8 @@ class PlaceEngine(object):
         group_of = {}
         if not complete and vs:
             for _ in range(t.draw_small(4, 0.5)):
-                members = [vs[t.draw(len(vs))] for _ in range(2 + t.draw(3))]
+                members = [vs[t.draw(len(vs))]
+                           for _ in range([1, 2, 2, 3, 4, 0][t.draw_small(6, 0.8)])]
                 out.append(cons.SameChipConstraint(members))
                 g.same_chip.append(members)
                 w.probe("same_chip_group")
